@@ -234,6 +234,7 @@ type runState struct {
 	icounts   map[string]int
 	initPhase bool
 	callCounts map[string]int
+	sepFree    map[string]bool // SMT variables known to contain no path separator (digests)
 }
 
 func newSolver(cmd []string) (*smt.Solver, error) { return smt.NewSolver(cmd...) }
@@ -653,7 +654,7 @@ func (e *Explorer) RunWorker(w *Worker, entryFn func(w *Worker)) {
 func (e *Explorer) runPath(w *Worker, prefix []Decision, entryFn func(w *Worker)) {
 	w.solver.Reset()
 	r := &runState{ex: e, w: w, prefix: prefix, varIdx: map[string]int{}, choices: map[string]int64{},
-		notes: map[string]string{}, flags: map[string]int64{}, objs: map[string]any{}}
+		notes: map[string]string{}, flags: map[string]int64{}, objs: map[string]any{}, sepFree: map[string]bool{}}
 	w.i.cur = r
 	w.i.resetGlobals()
 	end := pathEnd{kind: endDone}
